@@ -192,11 +192,18 @@ class SpawnProcess(multiprocessing.context.SpawnProcess):
 
     def _collect_result(self):
         result, error = None, None
+        eof = None
         try:
             result = self._result_and_error_.recv()
             error = self._result_and_error_.recv()
 
         except EOFError as exc:
+            eof = exc
+        except Exception as exc:
+            # What the child sent can not be received, e.g. its exception can not be
+            # unpickled in this process. Do not raise here; the Future must be completed.
+            error = exc
+        if eof is not None:
             # the process has been terminated by calling ``self.terminate()``
             while self.exitcode is None:
                 time.sleep(0.001)
@@ -218,7 +225,7 @@ class SpawnProcess(multiprocessing.context.SpawnProcess):
                     msg += ': possibly out of memory'
                 # Do not raise here; the Future must be completed.
                 error = OSError(exitcode, msg)
-                error.__cause__ = exc
+                error.__cause__ = eof
 
         self._result_and_error_.close()
         self._result_and_error_ = None
@@ -339,7 +346,7 @@ class SpawnProcess(multiprocessing.context.SpawnProcess):
 
     def _join_process(self, timeout=None):
         super().join(timeout)
-        if timeout is None:
+        if timeout is None or multiprocessing.connection.wait([self.sentinel], 0):
             # The process has exited. The result collector thread polls `exitcode`
             # at the same time; if it happened to reap the child first (`os.waitpid`
             # works once), the exit code shows up in this thread a moment later.
